@@ -338,9 +338,29 @@ def gen_history(rng, dirty_before_start=False):
     regs = {}        # our own idea of the region list, only to generate meaningful requests
     dyadic = set()   # ids of regions whose parameters are dyadic (float arithmetic on them is exact)
     nid = [0]
-    prog = genprog.Gen(rng, addregions=False, layers=1, g90e=st['g90e']).program()
+    gen_ = genprog.Gen(rng, addregions=False, layers=1, g90e=st['g90e'])
+    prog = gen_.program()
     cmds = [e for e in prog['events'] if e[0] in ('cmd', 'at')]
     pos = 0
+    try:
+        pts_ = [(float(x), float(y)) for (x, y) in gen_.tested_points(prog['events'])] + [(0.0, 0.0)]
+    except Exception:
+        pts_ = []
+
+    def clear_of_path(d):
+        """binary64 decides like the exact model only away from the borders: a region placed blindly (at the origin, of zero size, ...) is used
+        only if no point the filter will test lies within 5e-4 of its border (the relative moves of a program can come back to a round
+        coordinate such as 0 with a residue of 1e-14)"""
+        try:
+            if d.get('type') == 'RectangularRegion':
+                r = ('rect', '', min(d['x1'], d['x2']), min(d['y1'], d['y2']), max(d['x1'], d['x2']), max(d['y1'], d['y2']))
+            elif d.get('type') == 'CircularRegion':
+                r = ('circ', '', d['cx'], d['cy'], d['r'])
+            else:
+                return True
+            return all(abs(genprog.region_dist(r, x, y)) >= 5e-4 for (x, y) in pts_)
+        except (TypeError, KeyError):
+            return True         # requests with wrong-typed values are refused by the API anyway
 
     def api_some():
         k = rng.random()
@@ -352,6 +372,10 @@ def gen_history(rng, dirty_before_start=False):
             if rng.random() < 0.1:
                 rid = rng.choice(['', '', '0'])       # legal ids that happen to be falsy / look like numbers
             data = rnd_region_data(rng, rid)
+            for _try in range(6):
+                if clear_of_path(data):
+                    break
+                data = rnd_region_data(rng, rid)
             if rng.random() < 0.07:
                 data['type'] = rng.choice(['TriangularRegion', '', 'Region', 'Rectangular', 'rectangularregion', 'CircularRegionX', 'Circular'])
             evs.append(('api', 'addExcludeRegion', data, anon))
